@@ -114,6 +114,11 @@ func getEncoder(t reflect.Type, state *stateEncode) (*encoder, error) {
 	kind := t.Kind()
 	switch kind {
 	case reflect.Map:
+		if encodesToNothing(t.Key()) && encodesToNothing(t.Elem()) {
+			// an entry takes no bytes on the wire: the decoder refuses a number of
+			// entries that exceeds the number of bytes that are left
+			return nil, fmt.Errorf("map of zero-size entries (%v) is not supported", t)
+		}
 		encKey, err := getEncoder(t.Key(), state)
 		if err != nil {
 			return nil, err
